@@ -228,6 +228,10 @@ class Ctx:
         self.checker_cmd = ""
         self.rule = ""
 
+    def mark(self, name):
+        """record the wall time at which a phase of the check finished (written to the evidence)"""
+        self.suites.setdefault("_phases", {})[name] = round(time.time() - self.t0, 1)
+
     # ---------- tier helpers ----------
     def n(self, quick, thorough):
         return thorough if self.tier == "thorough" else quick
@@ -239,7 +243,9 @@ class Ctx:
         # Generated.v is shared by every check process: translate + build + re-check under one lock so that a
         # concurrent check against another source tree (VERIF_REPO) cannot swap it in between
         with coq_lock():
-            return self._prove_locked(files)
+            r = self._prove_locked(files)
+        self.mark("prove")
+        return r
 
     def _prove_locked(self, files=None):
         pid = self.pid
